@@ -16,7 +16,7 @@ ALU = "adc add and cmp or sbb sub xor".split()
 CCS = "a ae b be c e g ge l le na nae nb nbe nc ne ng nge nl nle no np ns nz o p pe po s z".split()
 CMOV = ["cmov" + c for c in CCS]
 SETCC = ["set" + c for c in CCS]
-JCC = "ja jae jb je jg jge jl jle jne jno jnp jns jo jp js".split()  # spellings the table can reach
+JCC = "ja jae jb jbe je jg jge jl jle jne jno jnp jns jo jp js".split()  # spellings the table can reach
 UNARY = "dec inc neg not".split()
 SHIFT_CL = "sal sar shl shr".split()
 SHIFT_IMM = "rcr ror sal sar shl shr".split()
@@ -369,7 +369,7 @@ def mem_classes(rnd):
     add("call_m", "call", 64, "none64", lambda M, E, k: ("call %s%s" % (k, M), [E(64)]))
     for mn in SETCC:
         add("setcc_m", mn, 8, "none8", lambda M, E, k, mn=mn: ("%s %s%s" % (mn, k, M), [E(8)]))
-    for mn in ("prefetcht0", "prefetchnta", "clflush"):
+    for mn in ("prefetcht0", "prefetcht1", "prefetcht2", "prefetchnta", "clflush"):
         add("hint_m", mn, 8, "none8", lambda M, E, k, mn=mn: ("%s %s%s" % (mn, k, M), [E(8)]))
     for x in ("xmm1", "xmm9"):
         for mn in [m for m in SSE_MMX if m != "pand"] + SSE_ONLY_RM + ["movntdqa"]:  # (pand xmm, m128 is not a form the library has)
